@@ -425,9 +425,16 @@ where
     {
         let items = items.into_iter();
         let len = items.len();
+        let len_l = L::from_usize(len).ok_or_else(|| {
+            error!(
+                ErrorCode::ToPrimitiveError,
+                "Owned list length {len} larger than max size of List length {}",
+                type_name::<L>()
+            )
+        })?;
         bytes
             .try_advance(size_of::<L>())?
-            .copy_from_slice(bytes_of(&L::from_usize(len).unwrap()));
+            .copy_from_slice(bytes_of(&len_l));
 
         for item in items {
             bytes
